@@ -325,7 +325,7 @@ def gen_tables(I, rng, conf, ob, ntables):
                 q = rng.random()
                 if q < 0.3:
                     spec[k] = "any"
-                elif q < 0.6:
+                elif q < 0.6 and k != "base_video_format":
                     spec[k] = list(obs[k]) + [[min(obs[k]), max(obs[k]) + rng.randint(0, 3)]]
         elif r < 0.45:
             name = "flags-forced"
@@ -467,6 +467,14 @@ def small_level_confs(I, ctx):
     """Real level table: small formats admitted by the generalised levels 1 (QSIF/QCIF/SIF/CIF)."""
     rng = ctx.rng
     out = []
+    # deterministic: custom quantisation matrix at the edge of / outside level 1's 0-127
+    v = C15.flat(I.set_source_defaults(I.t.BaseVideoFormats(1)))
+    for maxv in (127, 200):
+        kw = dict(profile="hq", lossless=False, wavelet_index=4, wavelet_index_ho=4, dwt_depth=1, dwt_depth_ho=0, slices_x=11, slices_y=5,
+                  fragment_slice_count=0, frame_width=v[0], frame_height=v[1], color_diff_format=v[2], fields=False, interlaced=bool(v[3]),
+                  luma_offset=v[13], luma_excursion=v[14], color_diff_offset=v[15], color_diff_excursion=v[16],
+                  quantization_matrix={"0": {"LL": maxv}, "1": {"HL": 1, "LH": 1, "HH": 2}}, picture_bytes=11 * 5 * 64)
+        out.append({"kw": kw, "level": 1, "vp": v, "near": 1, "pic_seed": 1, "pic_kind": "mid", "real": True})
     for bvf in (1, 2):
         for rep in range(ctx.pick(1, 3)):
             base = I.t.BASE_VIDEO_FORMAT_PARAMETERS[I.t.BaseVideoFormats(bvf)]
